@@ -42,7 +42,7 @@ ASSUMPTIONS = [
     "numerical-fallback force rows whose stencil crosses a "
     "boundary are not compared (counted)",
 ]
-REQUIRED = {"special:root_on_grid": 8, "special:decay_tail": 8, "special:growth": 4, "special:break_on_row": 8, "special:other_units": 10, "reject:four_rows": 2, "no_potentials:reject": 3, "accept": 60, "reject": 40, "reject:nr%4=2:api_class": 5, "reject:nr%4=2:writePotentials": 5,
+REQUIRED = {"special:int_plateau": 4, "special:root_on_grid": 8, "special:decay_tail": 8, "special:growth": 4, "special:break_on_row": 8, "special:other_units": 10, "reject:four_rows": 2, "no_potentials:reject": 3, "accept": 60, "reject": 40, "reject:nr%4=2:api_class": 5, "reject:nr%4=2:writePotentials": 5,
             "reject:nr%4=2:potable": 10, "route:potable:DL_POLY": 10, "route:potable:DLPOLY": 10,
             "route:api_class": 15, "route:writePotentials": 15}
 FMT = ("e", 7)
@@ -75,6 +75,8 @@ def _case(draw, nr_max, accept, route=None, rem=None):
 def _special(draw, kind):
     m = draw(gen.special_pair_model(kind, dlpoly=True))
     m["route"] = draw(st.sampled_from(["api_class", "writePotentials", "potable:DL_POLY", "potable:DLPOLY"]))
+    if kind == "int_plateau":
+        m["int_returns"] = draw(st.booleans())
     return m
 
 
@@ -114,7 +116,7 @@ def strategy(tier):
 def strata(tier):
     mx = 80 if tier == "quick" else 2000
     out = [("accept", _case(mx, True), 12), ("root_on_grid", _special("root_on_grid"), 2),
-           ("decay_tail", _special("decay_tail"), 2), ("growth", _special("growth"), 1)]
+           ("decay_tail", _special("decay_tail"), 2), ("growth", _special("growth"), 1), ("int_plateau", _special("int_plateau"), 1)]
     out.append(("break_on_row", _node_case(), 2))
     out += [("other_units:" + f, _units(f), 0.25) for f in gen.UNIT_FORMS if f not in ("zero", "constant")]
     for route in ("api_class", "writePotentials", "potable:DL_POLY", "potable:DLPOLY"):
@@ -205,6 +207,8 @@ def check_case(case):
         cls.append("reject:four_rows")
     if case.get("special"):
         cls.append("special:" + case["special"])
+    if case.get("int_returns") and not case["route"].startswith(("potable", "main", "cli")):
+        cls.append("callables_return_ints")
     if not accept:
         cls.append("reject:nr%%4=%d:%s" % (nr % 4, "potable" if route.startswith("potable") else route))
     rk = "potable" if route.startswith("potable") or route == "cli" else "api"
